@@ -216,7 +216,7 @@ func init() {
 					// position of the call inside the switch
 					return m.An.clauseOf(st.Call.Pos())
 				}
-				return core.FuncName(st.Caller)
+				return "host-parsers"
 			}
 			got := map[string][]*handlerSite{}
 			for _, st := range em.Sites {
@@ -278,10 +278,10 @@ func init() {
 			for _, k := range extra {
 				st := got[k][0]
 				props := []string{"C01"}
-				if strings.Contains(k, "parseIPv4") || strings.Contains(k, "endsInANumber") {
+				if strings.Contains(k, "|IPv4") && !strings.Contains(k, "InIPv6") {
 					props = []string{"C01", "C07"}
 				}
-				if strings.Contains(k, "parseIPv6") {
+				if strings.Contains(k, "|IPv6") || strings.Contains(k, "InIPv6") {
 					props = []string{"C01", "C08"}
 				}
 				s.Bad("failpoint/"+strings.Replace(k, "|", "/", 1)+"/extra", c.P.Pos(st.Call.Pos()), "failure point that the standard does not have", props...)
